@@ -20,7 +20,8 @@ def c14(tier):
     ]
 
 def c02(tier):
-    return [mint_h('VHarnessMintTokensWrap', 'mint: PAID quote, exactly 4 outputs over {1, 2^61, 2^62} (64-bit wrap-around of the total)', must_reach=('wrap-accepted', 'wrap-rejected')),
+    wide = [mint_h('VHarnessSwapC02Wide', 'swap: <= 3 inputs, <= 2 outputs; 1+1+1 arbitrary rows', must_reach=('swap-accepted', 'swap-rejected'), timeout_s=3000)] if tier == 'thorough' else []
+    return wide + [mint_h('VHarnessMintTokensWrap', 'mint: PAID quote, exactly 4 outputs over {1, 2^61, 2^62} (64-bit wrap-around of the total)', must_reach=('wrap-accepted', 'wrap-rejected')),
             
         mint_h('VHarnessSwapC02', 'swap: <= 2 inputs, <= 2 outputs; 1+1+1 arbitrary rows', must_reach=('swap-accepted', 'swap-rejected')),
         mint_h('VHarnessMeltQuoteC02', 'melt quote: real invoice < 2^50 msat or garbage, optional MPP, 1 mint quote + 1 melt quote arbitrary rows', must_reach=('melt-quote-accepted', 'melt-quote-refused')),
@@ -45,7 +46,10 @@ def mint_h(name, bounds, **kw):
 STORAGE_LISTS = Harness('VHarnessStorageLists', 'mint/storage/sqlite', ['mint/storage/sqlite/zz_verif_db.go'], models=('std', 'crypto', 'json', 'sql'), summaries=('h2c',), crypto_mode='euf', bounds='GetProofsUsed / GetPendingProofs / GetBlindSignatures with a list of 1, 2 or 1001 distinct keys over 1+1+1 arbitrary rows (the stored key may equal any position of the list)', must_reach=('looked-up', 'long-list'))
 RACE_MELT_MELT = mint_h('VHarnessRaceMeltMelt', '2 concurrent melts (different quotes) of the same genuine proof, schedule symbolic at storage / Lightning call granularity, <= 2 pre-emptions, backend answers scripted symbolically', sched=True, must_reach=('joined', 'one-honoured'))
 def c01(tier):
-    return [
+    wide = [mint_h('VHarnessSwapC01Wide', 'swap: <= 2 inputs, <= 2 outputs, every field free; 2 proofs + 2 pending + 2 blind_signatures arbitrary rows', must_reach=('swap-accepted', 'swap-rejected'), timeout_s=3000),
+            mint_h('VHarnessRaceSwapSwap3', '2 concurrent swaps of the same genuine proof, <= 3 pre-emptions', sched=True, must_reach=('joined', 'one-honoured'), timeout_s=3000),
+            mint_h('VHarnessRaceSwapMelt3', 'swap and melt of the same genuine proof concurrently, <= 3 pre-emptions', sched=True, must_reach=('joined', 'one-honoured'), timeout_s=3000)] if tier == 'thorough' else []
+    return wide + [
         mint_h('VHarnessRaceSwapSwap', '2 concurrent swaps of the same genuine proof, schedule symbolic at storage-call granularity, <= 2 pre-emptions', sched=True, must_reach=('joined', 'one-honoured')),
         mint_h('VHarnessRaceSwapMelt', 'swap and melt of the same genuine proof concurrently, schedule symbolic, <= 2 pre-emptions', sched=True, must_reach=('joined', 'one-honoured')),
         RACE_MELT_MELT, STORAGE_LISTS,mint_h('VHarnessSwapC01', 'swap: <= 2 inputs, <= 1 output, every field free; 2 proofs + 1 pending + 1 blind_signatures arbitrary rows',
@@ -53,7 +57,8 @@ def c01(tier):
         mint_h('VHarnessMeltC05', 'melt + 1 poll with a scripted backend (<= 3 answers): the inputs of a melt whose payment may still settle stay locked - released only after a definitive failure (else they could be spent a second time)', must_reach=('poll-1',))]
 
 def c03(tier):
-    return [
+    wide = [mint_h('VHarnessRaceMintMint3', '2 concurrent mint requests with different outputs on one PAID quote, <= 3 pre-emptions', sched=True, must_reach=('joined',), timeout_s=3000)] if tier == 'thorough' else []
+    return wide + [
         mint_h('VHarnessRaceMintMint', '2 concurrent mint requests with different outputs on one PAID quote, schedule symbolic, <= 2 pre-emptions', sched=True, must_reach=('joined',)),
         mint_h('VHarnessRaceMintWatcher', 'mint request + real invoice watcher (checkInvoicePaid) + second mint request, schedule symbolic, <= 2 pre-emptions', sched=True, must_reach=('joined',)),mint_h('VHarnessMintTokensC03', 'mint: quote in any state, optional NUT-20 lock, <= 2 free outputs, 6 signature variants, 1 arbitrary blind_signatures row',
                    must_reach=('mint-accepted', 'mint-rejected')),
@@ -62,7 +67,8 @@ def c03(tier):
 
 def c06(tier):
     kw = dict(panic_mode='obligation')
-    return [
+    wide = [mint_h('VHarnessSwapC06Wide', 'swap: <= 3 inputs (genuine or free), <= 2 free outputs; 1+1+1 arbitrary rows', must_reach=('swap-accepted', 'swap-rejected'), timeout_s=3000, **kw)] if tier == 'thorough' else []
+    return wide + [
         mint_h('VHarnessSwapC06', 'swap: <= 2 inputs (genuine or free), <= 2 free outputs; 1+1+1 arbitrary rows', must_reach=('swap-accepted', 'swap-rejected'), **kw),
         mint_h('VHarnessMintTokensC06', 'mint: quote in any state, <= 2 free outputs, 6 signature variants', must_reach=('mint-accepted', 'mint-rejected'), **kw),
         mint_h('VHarnessMeltC06', 'melt: 1..2 genuine inputs, scripted backend <= 2 answers', must_reach=('melt-no-payment',), **kw),
@@ -73,7 +79,8 @@ def c06(tier):
         n11_h('VHarnessP2PKTagsTotal', 'ParseP2PKTags on 0..2 tags of 0..3 elements, tag name one of the five known names or another string, every other element an arbitrary string: no panic', panic_mode='obligation', must_reach=('parsed', 'rejected')),
     ]
 def c15(tier):
-    return [
+    wide = [mint_h('VHarnessQueryC15Wide', 'checkstate / restore: 0..3 arbitrary entries; 2 spent + 1 pending + 2 signature arbitrary rows', must_reach=('checkstate-ok', 'restore-ok'), timeout_s=3000)] if tier == 'thorough' else []
+    return wide + [
         mint_h('VHarnessQueryC15', 'checkstate / restore: 0..2 arbitrary entries; 2 spent + 1 pending + 2 signature arbitrary rows', must_reach=('checkstate-ok', 'restore-ok')),
         mint_h('VHarnessFaultQueryC15', 'restore / checkstate of 1..2 arbitrary entries over 1 spent + 2 signature arbitrary rows with a storage error injected at any one storage call (position symbolic)', sched=True, must_reach=('restore-struck', 'restore-answered', 'checkstate-struck', 'checkstate-answered')),
         mint_h('VHarnessSwapC15', 'swap then checkstate + restore: <= 2 inputs, <= 2 outputs', must_reach=('swap-accepted',)),
